@@ -13,16 +13,20 @@
 
 use std::collections::{BTreeSet, VecDeque};
 use std::ops::RangeInclusive;
-use std::sync::Arc;
+use std::fmt::Display;
 use std::sync::atomic::{AtomicU64, Ordering};
+use std::sync::{Arc, Mutex};
 use std::time::Duration;
 
 use celestia_proto::p2p::pb::header_request::Data;
+use async_trait::async_trait;
 use celestia_types::ExtendedHeader;
+use celestia_types::hash::Hash;
 use celestia_types::test_utils::ExtendedHeaderGenerator;
 use lumina_node::events::{EventSubscriber, NodeEvent};
 use lumina_node::node::{HeaderExError, P2pError};
-use lumina_node::store::{InMemoryStore, Store};
+use lumina_node::block_ranges::BlockRanges;
+use lumina_node::store::{InMemoryStore, SamplingMetadata, Store, StoreError, VerifiedExtendedHeaders};
 use lumina_node::verif::mock_p2p::{VCmd, VP2p};
 use lumina_node::verif::syncer::{VSyncEvents, VSyncer, start_syncer};
 use lv_core::*;
@@ -99,6 +103,38 @@ impl Chains {
         Ok(Chains { a, b, old_upto })
     }
 
+    /// Chains for the real-time configuration: every header time lies `inside` within a
+    /// sampling window of `window` *now* (1 ms apart), so that a real sleep of more than
+    /// `inside` moves all of them out of the window.
+    pub fn build_aging(total: u64, window: Duration, inside: Duration) -> Result<Chains, String> {
+        let t = (Time::now() - (window - inside)).map_err(|e| e.to_string())?;
+        let ga = ExtendedHeaderGenerator::new();
+        let gb = ga.fork();
+        let make = |mut g: ExtendedHeaderGenerator, off_us: u64| -> Vec<ExtendedHeader> {
+            // B is shifted by half a millisecond; Time keeps nanoseconds
+            g.set_time((t + Duration::from_micros(off_us)).unwrap(), Duration::from_millis(1));
+            g.next_many_empty(total)
+        };
+        let a = make(ga, 0);
+        let b = make(gb, 500);
+        for chain in [&a, &b] {
+            for (i, h) in chain.iter().enumerate() {
+                h.validate().map_err(|e| format!("fixture: header {} invalid: {e}", i + 1))?;
+                if i > 0 {
+                    chain[i - 1]
+                        .verify(h)
+                        .map_err(|e| format!("fixture: header {} does not verify: {e}", i + 1))?;
+                }
+            }
+        }
+        for i in 0..total as usize {
+            if a[i].hash() == b[i].hash() {
+                return Err(format!("fixture: fork equals honest chain at height {}", i + 1));
+            }
+        }
+        Ok(Chains { a, b, old_upto: 0 })
+    }
+
     pub fn total(&self) -> u64 {
         self.a.len() as u64
     }
@@ -130,6 +166,12 @@ pub struct Menu {
     pub error: bool,
     /// fork range, A|B and B|A splices, `Ok(vec![])`
     pub adversarial: bool,
+    /// fork range only (when `adversarial` is off)
+    pub fork: bool,
+    /// choice points at the syncer's store-call boundaries (`get_stored_header_ranges`,
+    /// `get_pruned_ranges`, `get_by_height`, `insert`): "the pruner removes prunable height
+    /// #k right now" (same admissibility as `prune`), 0 = nothing happens
+    pub store_call_prune: bool,
     /// head request answered with a stale / an advanced honest head
     pub head_variants: bool,
     /// header-sub announces the next head / skips one
@@ -167,6 +209,22 @@ pub struct SysCfg {
     pub tail_events: usize,
     /// absolute cap on events of one execution
     pub max_events: usize,
+    /// real-time configuration: short sampling window, header times `inside` the window at
+    /// the start of each execution, environment event "let `sleep` of REAL time pass"
+    pub aging: Option<Aging>,
+}
+
+#[derive(Clone, Copy, Debug)]
+pub struct Aging {
+    pub window: Duration,
+    pub inside: Duration,
+    pub sleep: Duration,
+}
+
+impl SysCfg {
+    pub fn sampling_window(&self) -> Duration {
+        self.aging.map(|a| a.window).unwrap_or(SAMPLING_WINDOW)
+    }
 }
 
 // coverage counters (non-vacuity), summed over all executions of the process
@@ -179,6 +237,8 @@ pub static COV_BATCH_FAILED: AtomicU64 = AtomicU64::new(0);
 pub static COV_RECONNECTS: AtomicU64 = AtomicU64::new(0);
 pub static COV_HEADS_ANNOUNCED: AtomicU64 = AtomicU64::new(0);
 pub static COV_WINDOW_STOP: AtomicU64 = AtomicU64::new(0);
+pub static COV_STORE_CALL_PRUNES: AtomicU64 = AtomicU64::new(0);
+pub static COV_REPLAN_AFTER_AGING: AtomicU64 = AtomicU64::new(0);
 
 pub fn coverage_into(rep: &mut Report) {
     for (k, c) in [
@@ -191,6 +251,8 @@ pub fn coverage_into(rep: &mut Report) {
         ("cov:reconnects", &COV_RECONNECTS),
         ("cov:heads-announced", &COV_HEADS_ANNOUNCED),
         ("cov:idle-below-old-stored-header", &COV_WINDOW_STOP),
+        ("cov:prunes-between-store-calls", &COV_STORE_CALL_PRUNES),
+        ("cov:replanning-after-real-time-aging", &COV_REPLAN_AFTER_AGING),
     ] {
         let n = c.load(Ordering::Relaxed);
         if n > 0 {
@@ -243,6 +305,8 @@ enum Act {
     Prune(u64),
     Disconnect,
     Advance61,
+    /// REAL time passes (`std::thread::sleep`); the tokio clock stays paused
+    RealSleep,
 }
 
 struct Batch {
@@ -255,13 +319,160 @@ struct Batch {
     finished: bool,
 }
 
+/// State shared between the driver loop and the store the syncer works on.
+pub struct Hook {
+    pub chooser: Chooser,
+    /// choice points at store-call boundaries are live
+    enabled: bool,
+    old_upto: u64,
+    trace: Vec<String>,
+    edge_pruned: bool,
+}
+
+/// Whether `h` is the start of the highest synced (stored or pruned) range.
+fn is_window_edge(stored: &BTreeSet<u64>, pruned: &BTreeSet<u64>, h: u64) -> bool {
+    let synced: BTreeSet<u64> = stored.union(pruned).copied().collect();
+    let Some(m) = synced.iter().next_back().copied() else {
+        return false;
+    };
+    let mut s = m;
+    while s > 1 && synced.contains(&(s - 1)) {
+        s -= 1;
+    }
+    s == h
+}
+
+/// The `Store` handed to the syncer: `InMemoryStore` plus environment choice points right
+/// before the store calls of the planning step ("the concurrently running pruner removes a
+/// prunable height now").  Choice 0 = nothing happens.
+pub struct ChoiceStore {
+    inner: Arc<InMemoryStore>,
+    hook: Arc<Mutex<Hook>>,
+}
+
+impl std::fmt::Debug for ChoiceStore {
+    fn fmt(&self, f: &mut std::fmt::Formatter<'_>) -> std::fmt::Result {
+        f.write_str("ChoiceStore")
+    }
+}
+
+impl ChoiceStore {
+    async fn point(&self, call: &'static str) {
+        let (enabled, old_upto) = {
+            let h = self.hook.lock().unwrap();
+            (h.enabled, h.old_upto)
+        };
+        if !enabled {
+            return;
+        }
+        let stored = ranges_to_set(&self.inner.get_stored_header_ranges().await.unwrap());
+        let prunable: Vec<u64> = stored.iter().copied().filter(|h| *h <= old_upto).collect();
+        if prunable.is_empty() {
+            return;
+        }
+        let c = {
+            let mut h = self.hook.lock().unwrap();
+            h.chooser.choose(1 + prunable.len(), || {
+                format!(
+                    "before the syncer's store call {call}, store=[{}] | 0:Nothing {}",
+                    show(&stored),
+                    prunable.iter().enumerate().map(|(i, p)| format!("{}:PrunerRemoves({p})", i + 1)).collect::<Vec<_>>().join(" ")
+                )
+            })
+        };
+        if c > 0 {
+            let height = prunable[c - 1];
+            let pruned = ranges_to_set(&self.inner.get_pruned_ranges().await.unwrap());
+            let edge = is_window_edge(&stored, &pruned, height);
+            let r = self.inner.remove_height(height).await;
+            COV_PRUNES.fetch_add(1, Ordering::Relaxed);
+            COV_STORE_CALL_PRUNES.fetch_add(1, Ordering::Relaxed);
+            let mut h = self.hook.lock().unwrap();
+            h.edge_pruned |= edge;
+            h.trace.push(format!("prune-before:{call}:{height}:{}", r.is_ok()));
+        }
+    }
+}
+
+#[async_trait]
+impl Store for ChoiceStore {
+    async fn get_head(&self) -> Result<ExtendedHeader, StoreError> {
+        self.inner.get_head().await
+    }
+    async fn get_by_hash(&self, hash: &Hash) -> Result<ExtendedHeader, StoreError> {
+        self.inner.get_by_hash(hash).await
+    }
+    async fn get_by_height(&self, height: u64) -> Result<ExtendedHeader, StoreError> {
+        self.point("get_by_height").await;
+        self.inner.get_by_height(height).await
+    }
+    async fn wait_new_head(&self) -> u64 {
+        self.inner.wait_new_head().await
+    }
+    async fn wait_height(&self, height: u64) -> Result<(), StoreError> {
+        self.inner.wait_height(height).await
+    }
+    async fn head_height(&self) -> Result<u64, StoreError> {
+        self.inner.head_height().await
+    }
+    async fn has(&self, hash: &Hash) -> bool {
+        self.inner.has(hash).await
+    }
+    async fn has_at(&self, height: u64) -> bool {
+        self.inner.has_at(height).await
+    }
+    async fn update_sampling_metadata(&self, height: u64, cids: Vec<cid::Cid>) -> Result<(), StoreError> {
+        self.inner.update_sampling_metadata(height, cids).await
+    }
+    async fn get_sampling_metadata(&self, height: u64) -> Result<Option<SamplingMetadata>, StoreError> {
+        self.inner.get_sampling_metadata(height).await
+    }
+    async fn mark_as_sampled(&self, height: u64) -> Result<(), StoreError> {
+        self.inner.mark_as_sampled(height).await
+    }
+    async fn insert<R>(&self, headers: R) -> Result<(), StoreError>
+    where
+        R: TryInto<VerifiedExtendedHeaders> + Send,
+        <R as TryInto<VerifiedExtendedHeaders>>::Error: Display,
+    {
+        self.point("insert").await;
+        self.inner.insert(headers).await
+    }
+    async fn get_stored_header_ranges(&self) -> Result<BlockRanges, StoreError> {
+        self.point("get_stored_header_ranges").await;
+        self.inner.get_stored_header_ranges().await
+    }
+    async fn get_sampled_ranges(&self) -> Result<BlockRanges, StoreError> {
+        self.inner.get_sampled_ranges().await
+    }
+    async fn get_pruned_ranges(&self) -> Result<BlockRanges, StoreError> {
+        self.point("get_pruned_ranges").await;
+        self.inner.get_pruned_ranges().await
+    }
+    async fn remove_height(&self, height: u64) -> Result<(), StoreError> {
+        self.inner.remove_height(height).await
+    }
+    async fn get_identity(&self) -> Result<libp2p_identity::Keypair, StoreError> {
+        self.inner.get_identity().await
+    }
+    async fn close(self) -> Result<(), StoreError> {
+        Ok(())
+    }
+}
+
 struct Sys<'a> {
     cfg: &'a SysCfg,
     ch: &'a Chains,
     p2p: VP2p,
+    /// the store itself (the driver's own reads / prunes go here directly)
     store: Arc<InMemoryStore>,
+    /// shared with the `ChoiceStore` the syncer works on
+    hook: Arc<Mutex<Hook>>,
     events: EventSubscriber,
-    syncer: VSyncer<InMemoryStore>,
+    syncer: VSyncer<ChoiceStore>,
+    /// wall clock taken before the current environment event was injected
+    t_action: Time,
+    slept: bool,
     outstanding: VecDeque<Req>,
     /// range requests drained but not yet checked
     pending_fresh: Vec<(u64, u64)>,
@@ -375,6 +586,11 @@ impl<'a> Sys<'a> {
 
     /// After a settle: drain events and commands, evaluate the oracles.
     async fn observe(&mut self) {
+        {
+            let mut h = self.hook.lock().unwrap();
+            self.trace.append(&mut h.trace);
+            self.edge_pruned |= h.edge_pruned;
+        }
         let (stored, pruned) = self.snapshot().await;
 
         // node events first: they tell which batch the following requests belong to
@@ -413,6 +629,10 @@ impl<'a> Sys<'a> {
                 NodeEvent::FetchingHeadersFailed { from_height, to_height, .. } => {
                     self.trace.push(format!("batch-failed:{from_height}-{to_height}"));
                     COV_BATCH_FAILED.fetch_add(1, Ordering::Relaxed);
+                    // the syncer re-plans right after a failure: did it have to notice ageing?
+                    if self.slept && self.is_old(to_height + 1) {
+                        COV_REPLAN_AFTER_AGING.fetch_add(1, Ordering::Relaxed);
+                    }
                     if let Some(b) = self.batch.as_mut() {
                         if b.from == from_height && b.to == to_height {
                             b.finished = true;
@@ -463,6 +683,27 @@ impl<'a> Sys<'a> {
             }
         }
         self.trace.push(format!("store:[{}] pruned:[{}]", show(&stored), show(&pruned)));
+    }
+
+    /// "Older than the sampling window".  Static configurations: heights 1..=old_upto (>= 2 h
+    /// margins).  Real-time configuration: the honest header's time is outside the window
+    /// already at the wall-clock instant taken BEFORE the current environment event was
+    /// injected — every decision the syncer took since then saw a clock at least that late,
+    /// so the header was out of the window for the syncer as well (no false alarm possible; a
+    /// header that ages out in between gets no verdict).
+    fn is_old(&self, h: u64) -> bool {
+        match self.cfg.aging {
+            None => h <= self.ch.old_upto,
+            Some(a) => {
+                let Some(hd) = self.ch.a.get(h as usize - 1) else {
+                    return false;
+                };
+                match self.t_action - a.window {
+                    Ok(cutoff) => !hd.time().after(cutoff),
+                    Err(_) => false,
+                }
+            }
+        }
     }
 
     /// Oracles on one announced batch, against the store at the moment it was scheduled.
@@ -532,11 +773,17 @@ impl<'a> Sys<'a> {
         }
         if self.cfg.oracles.c25 {
             // a synced header above the batch that is older than the sampling window
-            if let Some(h) = synced.iter().copied().find(|h| *h > b && *h <= self.ch.old_upto) {
+            // (`h > a`: some requested height lies below h; on a tree that never requests synced
+            // heights this is the same as `h > b`)
+            if let Some(h) = synced.iter().copied().find(|h| *h > a && self.is_old(*h)) {
                 let how = if stored.contains(&h) { "stored" } else { "pruned" };
+                let which = match self.cfg.aging {
+                    None => format!("heights 1..={} are", self.ch.old_upto),
+                    Some(g) => format!("real-time config: window {:?}, header time already outside it before the triggering event", g.window),
+                };
                 self.violate(
                     "batch-below-old-synced-header",
-                    format!("synced ({how}) header {h} is older than the sampling window (heights 1..={} are), yet the batch lies below it; {ctx}", self.ch.old_upto),
+                    format!("synced ({how}) header {h} is older than the sampling window ({which}), yet the batch requests heights below it; {ctx}"),
                 );
             }
             // the same batch again although the previous attempt was answered honestly in full
@@ -605,6 +852,9 @@ impl<'a> Sys<'a> {
         }
         if m.error {
             v.push(Ans::ErrNotFound);
+        }
+        if m.fork && !m.adversarial {
+            v.push(Ans::Fork);
         }
         if m.adversarial {
             v.push(Ans::Fork);
@@ -680,6 +930,9 @@ impl<'a> Sys<'a> {
         }
         if m.clock {
             v.push(Act::Advance61);
+        }
+        if self.cfg.aging.is_some() && !self.slept && self.outstanding.iter().any(|r| r.origin > 0) {
+            v.push(Act::RealSleep);
         }
         v
     }
@@ -791,16 +1044,9 @@ impl<'a> Sys<'a> {
             Act::Prune(h) => {
                 COV_PRUNES.fetch_add(1, Ordering::Relaxed);
                 let (stored, pruned) = self.snapshot().await;
-                let synced: BTreeSet<u64> = stored.union(&pruned).copied().collect();
                 // window-bounding header: the start of the highest synced range
-                if let Some(m) = synced.iter().next_back().copied() {
-                    let mut s = m;
-                    while s > 1 && synced.contains(&(s - 1)) {
-                        s -= 1;
-                    }
-                    if s == h {
-                        self.edge_pruned = true;
-                    }
+                if is_window_edge(&stored, &pruned, h) {
+                    self.edge_pruned = true;
                 }
                 let r = self.store.remove_height(h).await;
                 self.trace.push(format!("prune:{h}:{}", r.is_ok()));
@@ -808,6 +1054,12 @@ impl<'a> Sys<'a> {
             Act::Advance61 => {
                 tokio::time::sleep(Duration::from_secs(61)).await;
                 self.trace.push("advance:61s".into());
+            }
+            Act::RealSleep => {
+                let d = self.cfg.aging.expect("menu").sleep;
+                std::thread::sleep(d);
+                self.slept = true;
+                self.trace.push("real-sleep".into());
             }
         }
     }
@@ -826,7 +1078,7 @@ fn describe(acts: &[Act]) -> String {
         .join(" ")
 }
 
-async fn exec_async(cfg: &SysCfg, ch: &Chains, mut chooser: Chooser) -> Exec {
+async fn exec_async(cfg: &SysCfg, ch: &Chains, chooser: Chooser) -> Exec {
     let p2p = VP2p::new();
     let store = Arc::new(InMemoryStore::new());
     let mut max_prefilled = 0;
@@ -837,10 +1089,23 @@ async fn exec_async(cfg: &SysCfg, ch: &Chains, mut chooser: Chooser) -> Exec {
     }
     let ev = VSyncEvents::new();
     let events = ev.subscribe();
-    let syncer = match start_syncer(&p2p, store.clone(), cfg.batch, SAMPLING_WINDOW, PRUNING_WINDOW, &ev) {
+    let hook = Arc::new(Mutex::new(Hook {
+        chooser,
+        enabled: cfg.menu.store_call_prune,
+        old_upto: ch.old_upto,
+        trace: vec![],
+        edge_pruned: false,
+    }));
+    let take_chooser = |hook: &Arc<Mutex<Hook>>| std::mem::replace(&mut hook.lock().unwrap().chooser, Chooser::new(&[], false));
+    let choice_store = Arc::new(ChoiceStore {
+        inner: store.clone(),
+        hook: hook.clone(),
+    });
+    let window = cfg.sampling_window();
+    let syncer = match start_syncer(&p2p, choice_store, cfg.batch, window, window + Duration::from_secs(3600), &ev) {
         Ok(s) => s,
         Err(e) => {
-            return Exec::from_chooser(chooser, "start-failed", 0, vec![viol("machinery-start-failed", e.to_string())], 0);
+            return Exec::from_chooser(take_chooser(&hook), "start-failed", 0, vec![viol("machinery-start-failed", e.to_string())], 0);
         }
     };
     let mut sys = Sys {
@@ -848,8 +1113,11 @@ async fn exec_async(cfg: &SysCfg, ch: &Chains, mut chooser: Chooser) -> Exec {
         ch,
         p2p,
         store,
+        hook: hook.clone(),
         events,
         syncer,
+        t_action: Time::now(),
+        slept: false,
         outstanding: VecDeque::new(),
         pending_fresh: vec![],
         connected: false,
@@ -884,7 +1152,7 @@ async fn exec_async(cfg: &SysCfg, ch: &Chains, mut chooser: Chooser) -> Exec {
             class = "event-cap";
             break;
         }
-        if !chooser.in_prefix() {
+        if !hook.lock().unwrap().chooser.in_prefix() {
             if tail >= cfg.tail_events {
                 class = "horizon";
                 break;
@@ -893,7 +1161,7 @@ async fn exec_async(cfg: &SysCfg, ch: &Chains, mut chooser: Chooser) -> Exec {
         }
         let (stored, _) = sys.snapshot().await;
         let acts = sys.menu(&stored);
-        let c = chooser.choose(acts.len(), || {
+        let c = hook.lock().unwrap().chooser.choose(acts.len(), || {
             format!(
                 "outstanding=[{}] connected={} header_sub={} net_head={} store=[{}] | {}",
                 sys.outstanding.iter().map(|r| format!("{}+{}", r.origin, r.amount)).collect::<Vec<_>>().join(","),
@@ -910,6 +1178,7 @@ async fn exec_async(cfg: &SysCfg, ch: &Chains, mut chooser: Chooser) -> Exec {
             break;
         }
         sys.n_events += 1;
+        sys.t_action = Time::now();
         sys.apply(act).await;
         settle().await;
         sys.observe().await;
@@ -940,7 +1209,9 @@ async fn exec_async(cfg: &SysCfg, ch: &Chains, mut chooser: Chooser) -> Exec {
         }
     }
     sys.syncer.stop();
+    hook.lock().unwrap().enabled = false;
     settle().await;
+    let chooser = take_chooser(&hook);
 
     let obs = fnv64(sys.trace.join("|").as_bytes());
     let n = sys.n_events as u64;
@@ -957,6 +1228,15 @@ pub fn run_exec(cfg: &SysCfg, ch: &Chains, prefix: &[u32], keep_labels: bool) ->
             .start_paused(true)
             .build()
             .expect("runtime");
+        let owned;
+        let ch = match cfg.aging {
+            // header times are relative to the start of this very execution
+            Some(a) => {
+                owned = Chains::build_aging(cfg.total, a.window, a.inside).expect("aging fixture");
+                &owned
+            }
+            None => ch,
+        };
         let x = rt.block_on(exec_async(cfg, ch, Chooser::new(prefix, keep_labels)));
         drop(rt);
         x
@@ -993,7 +1273,19 @@ pub fn explore_cfg(cfg: &SysCfg, ch: &Chains, bound: usize, wall_cap: Duration, 
         max_execs,
         max_deviation_pos: 0,
     };
-    explore_deviations(&dc, |p, keep| run_exec(cfg, ch, p, keep), &mut r)?;
+    // executions of the real-time configuration block in real sleeps: overlap them on a pool
+    // wider than the core count
+    let pool = match cfg.aging {
+        Some(_) => Some(rayon::ThreadPoolBuilder::new().num_threads(32).build().map_err(|e| e.to_string())?),
+        None => None,
+    };
+    let explore = |dc: &DevConfig, rep: &mut Report| -> Result<(), String> {
+        match &pool {
+            Some(pool) => pool.install(|| explore_deviations(dc, |p, keep| run_exec(cfg, ch, p, keep), rep)),
+            None => explore_deviations(dc, |p, keep| run_exec(cfg, ch, p, keep), rep),
+        }
+    };
+    explore(&dc, &mut r)?;
     if !r.violations.is_empty() {
         // simplest counterexample first: re-explore with growing bounds and report the
         // executions with the fewest deviations (the parallel DFS above finds them in any order)
@@ -1005,7 +1297,7 @@ pub fn explore_cfg(cfg: &SysCfg, ch: &Chains, bound: usize, wall_cap: Duration, 
                 max_execs,
                 max_deviation_pos: 0,
             };
-            explore_deviations(&dc, |p, keep| run_exec(cfg, ch, p, keep), &mut scratch)?;
+            explore(&dc, &mut scratch)?;
             if !scratch.violations.is_empty() {
                 let keys: BTreeSet<String> = scratch.violations.iter().map(|v| v.key.clone()).collect();
                 r.violations.retain(|v| !keys.contains(&v.key));
